@@ -27,13 +27,16 @@ class LogicalOp:
     def __init__(self, f):
         self.f = f
 
-    def __call__(self, a, b):
+    def __call__(self, a, b, out=None, **kw):
         a, b = np.asarray(a, dtype=object), np.asarray(b, dtype=object)
-        out = np.empty(np.broadcast(a, b).shape, dtype=object)
-        for i in np.ndindex(out.shape):
-            x, y = np.broadcast_to(a, out.shape)[i], np.broadcast_to(b, out.shape)[i]
-            out[i] = self.f(wrap(bool(x)) if isinstance(x, (bool, np.bool_)) else x, wrap(bool(y)) if isinstance(y, (bool, np.bool_)) else y)
-        return out
+        res = np.empty(np.broadcast(a, b).shape, dtype=object)
+        for i in np.ndindex(res.shape):
+            x, y = np.broadcast_to(a, res.shape)[i], np.broadcast_to(b, res.shape)[i]
+            res[i] = self.f(wrap(bool(x)) if isinstance(x, (bool, np.bool_)) else x, wrap(bool(y)) if isinstance(y, (bool, np.bool_)) else y)
+        if out is not None:          # numpy semantics: a third positional argument is the output array
+            out[...] = res
+            return out
+        return res
 
     def reduce(self, seq):
         seq = list(seq)
@@ -73,6 +76,8 @@ def mask_work(P, item):
         prev = bvec("prev", nchans)
         mv, ms, mk = bvec("var", nchans), bvec("skew", nchans), bvec("kurt", nchans)
         cust = bvec("custom", nchans)
+        # the specification refers to the masks as they were handed over (numpy calls may write into them)
+        prev0, mv0, ms0, mk0, cust0 = prev.copy(), mv.copy(), ms.copy(), mk.copy(), cust.copy()
 
         class H:
             chan_freqs = freqs
@@ -97,7 +102,7 @@ def mask_work(P, item):
         steps.append(np.array(m.chan_mask))
         rebind(rfi.RFIMask.apply_funcn, np=npm)(m, lambda cm: cust)
         steps.append(np.array(m.chan_mask))
-        return dict(m=m, freqs=freqs, ranges=ranges, prev=prev, mv=mv, ms=ms, mk=mk, cust=cust, steps=steps, calls=list(calls))
+        return dict(m=m, freqs=freqs, ranges=ranges, prev=prev0, mv=mv0, ms=ms0, mk=mk0, cust=cust0, steps=steps, calls=list(calls))
 
     def on_path(ctx, o):
         Ctx.cur = ctx
@@ -148,16 +153,22 @@ def orchestration_work(P, item):
     class RMask:
         def __init__(self, threshold, header, mean, var, skew, kurt, maxima, minima):
             log.append(("init", threshold, header, mean, var, skew, kurt, maxima, minima))
-            self.chan_mask = "FINALMASK"
+            self.chan_mask = "MASK@0"      # every apply_* produces a new mask object: a stale one is detectable
+
+        def _bump(self):
+            self.chan_mask = f"MASK@{int(self.chan_mask.split('@')[1]) + 1}"
 
         def apply_mask(self, fm):
             log.append(("apply_mask", fm))
+            self._bump()
 
         def apply_method(self, m):
             log.append(("apply_method", m))
+            self._bump()
 
         def apply_funcn(self, f):
             log.append(("apply_funcn", f))
+            self._bump()
 
     class CS:
         mean, var, skew, kurtosis, maxima, minima = "MEAN", "VAR", "SKEW", "KURT", "MAX", "MIN"
@@ -201,7 +212,8 @@ def orchestration_work(P, item):
                     exp.append(("apply_method", method))
                     if cf is not None:
                         exp.append(("apply_funcn", cf))
-                    exp.append(("apply_channel_mask", "FINALMASK", 7, dict(outfile_name="o", gulp=11, start=3, nsamps=20)))
+                    nsteps = 1 + (fm is not None) + (cf is not None)
+                    exp.append(("apply_channel_mask", f"MASK@{nsteps}", 7, dict(outfile_name="o", gulp=11, start=3, nsamps=20)))
                     good = method != "bogus" and log == exp and r[0] == "OUT" and isinstance(r[1], RMask)
                     if not good:
                         notes.append((method, fm, cf, have_stats, list(log)))
